@@ -44,9 +44,23 @@ func ftOne(c *fw.Ctx, dec int64, xs, ys, zs string) {
 		if err != nil {
 			panic(err)
 		}
-		name := fmt.Sprintf("TK%d", dec)
+		// one token name for every state of the process: a binding belongs to the state it was made in,
+		// so the decimals of another state (or of a reverted binding) must never be used
+		name := "TKN"
 		contract := common.HexToAddress("0x00000000000000000000000000000000000c0de1")
 		holder := common.HexToAddress("0x00000000000000000000000000000000000000a1")
+		// non-initial state: the name is first bound with another decimal count and used, then that
+		// is reverted and the name is bound again with the decimal count of this case
+		other := uint64(18 - dec)
+		if other == uint64(dec) {
+			other = 6
+		}
+		snap := st.Snapshot()
+		if st.AddERC20Binding(name, contract, 3, other) {
+			st.SetFT(holder, name, new(big.Int).Set(x))
+			st.GetFT(holder, name)
+		}
+		st.RevertToSnapshot(snap)
 		if !st.AddERC20Binding(name, contract, 3, uint64(dec)) {
 			fail("binding", "AddERC20Binding refused")
 			return
